@@ -17,6 +17,10 @@ def families(tier, seed):
             for vec in (False, True):
                 out.append(dict(tag=f"{tag}/{T}/{dt}", features=dict(feats, dt=dt), kind="run", model=model, T=T, dt=dt, dts=None,
                                 solver="euler", vec=vec, only_vars=feats.get("only_vars")))
+    for tag, feats, ps in gen.c16_cases(seed):
+        if tag.startswith("P5"):
+            dt = feats.get("dt", 0.05)
+            out.append(dict(tag=tag, features=feats, kind="population", ps=ps, T=10 * dt, dt=dt))
     return out
 
 
@@ -65,7 +69,7 @@ def main():
              "rings with two delay values and with a permuted uniform delay; vectorize off and on; every state variable, "
              "every row against the recurrence target_in[k] = w*source[k - round(d/dt)] (0 before the start); distinct = "
              "distinct (model, T, dt, vectorize)",
-        sample_of=cases.sample_of)
+        sample_of=lambda c: {k: v for k, v in c.items() if k not in ('features',)})
     rc = chk.finish(
         explanation="Bounded: run(solver='euler') of every family member against the explicitly delayed recurrence computed by "
                     "the spec (spec_fixed_step), element-wise at rtol 1e-7. Deductive part (when present): the delay "
